@@ -96,3 +96,39 @@ Proof.
                   (dest_text_ok_wf d1 W1) (dest_text_ok_wf d2 W2)) as H.
     unfold c07_holds in *. exact H.
 Qed.
+
+(* The most general text-level form: the base TEXT need not be in normal form
+   (it may spell a default port, ":0", an empty port, ...): whatever text the
+   model of URL() parses into a well-formed base. *)
+Theorem model_on_any_base_text bt b d1 d2 unrooted f1 f2 o0 :
+  url_of_text bt = Some b -> wf_base b -> dest_text_ok d1 -> dest_text_ok d2 ->
+  exists o, c07_model (mkCase bt unrooted (to_text d1) f1 (to_text d2) f2 o0) = Some o /\
+            c07_holds (mkCase bt unrooted (to_text d1) f1 (to_text d2) f2 o) = true.
+Proof.
+  intros Hb Wb W1 W2. exists (record_obs b d1 d2). split.
+  - destruct unrooted.
+    + rewrite <- (record_obs_unrooted_eq b d1 d2 Wb (dest_text_ok_wf d1 W1)).
+      unfold c07_model. cbn [c_base c_unrooted c_ref1 c_ref2 c_as_url1 c_as_url2].
+      rewrite Hb, (dest_round_trip d1 W1).
+      rewrite (navigate_normal_form _ _ d1 f1 (dest_round_trip d1 W1) eq_refl).
+      rewrite (navigate_normal_form _ _ d2 f2 (dest_round_trip d2 W2) eq_refl). reflexivity.
+    + unfold c07_model. cbn [c_base c_unrooted c_ref1 c_ref2 c_as_url1 c_as_url2].
+      rewrite Hb, (dest_round_trip d1 W1).
+      rewrite (navigate_normal_form _ _ d1 f1 (dest_round_trip d1 W1) eq_refl).
+      rewrite (navigate_normal_form _ _ d2 f2 (dest_round_trip d2 W2) eq_refl). reflexivity.
+  - pose proof (model_observation_satisfies_spec b d1 d2 f1 f2 Wb
+                  (dest_text_ok_wf d1 W1) (dest_text_ok_wf d2 W2)) as H.
+    unfold c07_holds in *. exact H.
+Qed.
+
+From Coq Require Import String.
+From Boltons Require Import Proofs.C07_RfcExamples.
+Open Scope list_scope.
+
+Lemma ex_default_port :
+  url_of_text (codes "http://a:80/b/../c") <> None /\
+  wf_base (or_dummy (url_of_text (codes "http://a:80/b/../c"))) /\
+  to_text (or_dummy (url_of_text (codes "http://a:80/b/../c"))) = codes "http://a/b/../c".
+Proof.
+  split; [vm_compute; discriminate|]. split; [wf_concrete | vm_compute; reflexivity].
+Qed.
